@@ -544,7 +544,8 @@ theorem handleWriteHeader_quiet (a : Acc) (h : ObjHdr) : Quiet a (handleWriteHea
 
 theorem handleWrite_quiet (a : Acc) (seq : Nat) (hs : List ObjHdr) : Quiet a (handleWrite a seq hs).1 := by
   unfold handleWrite
-  exact foldl_quiet _ (fun p h => handleWriteHeader_quiet p.1 h) hs (a, 0)
+  exact foldl_quiet (fun (p : Acc × Nat) h => ((handleWriteHeader p.1 h).1, p.2 ||| (handleWriteHeader p.1 h).2))
+    (fun p h => handleWriteHeader_quiet p.1 h) hs (a, 0)
 
 theorem handleFreezeHeader_quiet (a : Acc) (k : FreezeKind) (h : ObjHdr) : Quiet a (handleFreezeHeader a k h).1 := by
   unfold handleFreezeHeader
